@@ -44,6 +44,9 @@ CHECKS.update({
  "C17": ("exploration","timed workloads through the proxy (blackhole, throttling) with 3/3 doubled-scale confirmation",
    "Client (ping,timeout) x server ping {off, 50 ms, 5 s, 3x timeout}: held calls of 0.1x..6x timeout, idle gaps of 3x/8x, a silent subscription open for 5x, a 1 MiB response throttled to ~3x timeout must all survive with the proxy's accept count staying 1; BLACKHOLE while idle / call in flight / subscription open must fail pending calls and produce a redial within 5x timeout + 2 s. Wall-clock by nature: plain binary, <=4 children, and a failure counts only if reproduced 3/3 at doubled time scale.",
    "Bounds are generous multiples of the timeout; unreproduced observations are inconclusive; default 30 s/5 s settings are not exercised.","2/C17"),
+ "C14": ("exploration","race detector + frame-validating proxy over all-writers stress repetitions and targeted windows",
+   "Stress repetitions with every writer class active on one connection (requests/responses from 10 B to 3x the write buffer, both cancel paths, channel registrations/values/closes, 1-3 ms pings on both sides, reverse calls, periodic faults with reconnect incl. outages longer than the timeout, client close), one writer class's critical section widened per repetition, plus windows W1, W4 and W10; the proxy validates every frame in both directions (mask discipline, fragmentation, control frames, each data message exactly one JSON-RPC object); race-detector reports with a library frame are violations (deduplicated by top library frame pair); a gorilla concurrent-write panic kills the child and is attributed.",
+   "The race detector only sees executed pairs; logging is silenced because its pools/mutexes add happens-before edges that hide races.","2/C14"),
 })
 NA={}
 def main():
